@@ -16,6 +16,7 @@ A statement proved for the generic entries holds for every entry (pair of entrie
 Trusted numpy facts encoded here (A6 + NaN propagation, DESIGN section 7 / C20 "T"):
   * arithmetic ufuncs and np.clip propagate NaN; x*0 with x=+-oo is NaN; clip(+-oo) is the bound;
   * in-place ufuncs (`out=a`) with a float result into an integer/bool array raise (UFuncTypeError <: TypeError);
+  * np.expm1(x) = exp(x) - 1 and np.log1p(x) = log(1 + x) over the reals (unfolded, no new symbol);
   * np.nanmin/np.nanmax ignore NaN but not +-inf (finite result only without an infinite entry of that sign);
     np.isclose(a, b) is |a-b| <= atol + rtol*|b|;
   * np.min/np.max of an empty array raise ValueError; np.quantile rejects q outside [0,1] with ValueError, an empty
@@ -568,6 +569,28 @@ def install(reg, dataclasses_=(), normalize_cls=None):
     M[np.exp] = _unary("exp", np.exp, TRUE, lambda t, r: [r > 0])
     M[np.sinh] = _unary("sinh", np.sinh, TRUE, odd_sign)
     M[np.arcsinh] = _unary("arcsinh", np.arcsinh, TRUE, odd_sign)
+
+    # np.expm1 / np.log1p are, over the reals (A1), DEFINITIONALLY exp(x) - 1 and log(1 + x) (NumPy documents them as exactly these
+    # functions, evaluated with better floating-point accuracy for small x): unfolded into the exp / log models above, so no
+    # new symbol and no new lemma schema is involved and code rewritten with them is seen through.
+    def m_expm1(interp, x, out=None, **kw):
+        if kw:
+            raise OutOfSubset(f"np.expm1 keyword {list(kw)}")
+        r = M[np.exp](interp, x, out=out)
+        if isinstance(r, PArr):
+            return M[np.subtract](interp, r, 1.0, out=r)  # r is x itself (out=x) or the fresh array exp produced
+        return M[np.subtract](interp, r, 1.0)
+
+    def m_log1p(interp, x, out=None, **kw):
+        if kw:
+            raise OutOfSubset(f"np.log1p keyword {list(kw)}")
+        t = M[np.add](interp, x, 1.0, out=out) if isinstance(x, PArr) and out is not None else M[np.add](interp, x, 1.0)
+        if isinstance(t, PArr):
+            return M[np.log](interp, t, out=t)
+        return M[np.log](interp, t)
+
+    M[np.expm1] = m_expm1
+    M[np.log1p] = m_log1p
 
     def m_abs(interp, x):
         if isinstance(x, PArr):
